@@ -531,14 +531,37 @@ def derived_relations(system: Any, msgs: Sequence[Tuple[str, str]] = ()) -> List
     from pydoctor import model
     bad: List[str] = []
     classes = [o for o in system.allobjects.values() if isinstance(o, model.Class)]
-    mro_msgs = " ".join(m for sec, m in msgs if sec == "mro")
+    def c3(k: Any, depth: int = 0) -> Optional[List[Any]]:
+        """Python's linearisation over the resolved bases; None when Python rejects the hierarchy."""
+        if depth > 50:
+            return None
+        bases = [b for b in k.baseobjects if b is not None]
+        if len({id(b) for b in bases}) != len(bases):
+            return None
+        seqs = []
+        for b in bases:
+            l = c3(b, depth + 1)
+            if l is None:
+                return None
+            seqs.append(list(l))
+        seqs.append(list(bases))
+        out = [k]
+        while any(seqs):
+            seqs = [q for q in seqs if q]
+            for q in seqs:
+                h = q[0]
+                if not any(any(x is h for x in r[1:]) for r in seqs):
+                    break
+            else:
+                return None
+            out.append(h)
+            seqs = [[x for x in q if x is not h] for q in seqs]
+        return out
+
     for c in classes:
         mro = list(c.mro())
-        if c.fullName() in mro_msgs or any(b.fullName() in mro_msgs for b in c.allbases()):
-            continue
-        if any(len([x for x in k.baseobjects if x is not None]) != len({id(x) for x in k.baseobjects if x is not None})
-               for k in c.allbases(include_self=True)):
-            continue        # the same class listed twice among the bases: Python rejects the class statement (TypeError)
+        if c3(c) is None:
+            continue        # Python rejects this class statement (duplicate base, no consistent MRO, cycle): C05 covers the report
         if not mro or mro[0] is not c:
             bad.append(f"MroStartsWithSelf:{c.fullName()}")
         for b in c.baseobjects:
